@@ -19,7 +19,7 @@ LEVEL_TEXT = (
     'overwrites a non-empty local queue and hands processed work back; its join no longer waits for '
     'the control-flow forwarder. The HTTP/JS layer end to end and ui/app.js are not analysed.')
 
-FLOORS = {'C19-R1': 7, 'C19-R2': 4, 'C19-R3': 6, 'C19-R4': 3, 'C19-R5': 4, 'C19-R6': 3, 'C03-R2': 2, 'C01-R4': 4}
+FLOORS = {'C19-R1': 7, 'C19-R2': 4, 'C19-R3': 6, 'C19-R4': 3, 'C19-R5': 4, 'C19-R6': 3, 'C03-R2': 2, 'C01-R4': 4, 'C05-R11': 3}
 
 STATES = 'checker::explorer::states'
 STATUS = 'checker::explorer::status'
@@ -607,3 +607,9 @@ def run(ctx):
                       'Model::actions or a sanctioned exit; the local batch is exactly what was drained')
     with ctx.rule('C01-R4', 'OD'):
         c01.r4_expand_or_sanctioned(ctx, _CB(F, 'OD'))
+    # requests reach the workers: the control path of the on-demand checker is lossless and complete
+    import c05
+    ctx.doc('C05-R11', 'on-demand control path: blocking sends only, the forwarder sends every message on every worker '
+                       'channel, workers wait in a blocking recv')
+    with ctx.rule('C05-R11', 'on_demand'):
+        c05.r11_control_messages_lossless(ctx, F)
